@@ -20,22 +20,30 @@ CONSTANTS Feats, MaxOcc, MaxLen, Flags
 \* features answered through the Constant aliases
 ConstFeats == {"type:str", "type:int", "type:float", "type:bool", "lit:5", "lit:2.5", "lit:'hi'", "lit:True"}
 
-VARIABLES prog, hist, handlers
-vars == <<prog, hist, handlers>>
+\* "foreign": a query on ANOTHER text handed in explicitly (find_asts(kind, student_code=...)) that does not parse.
+\* It answers 0 and says nothing about the submission.  IMPLEMENTATION-SHAPED: the tool keeps one success flag for
+\* "the last parse"; the results of earlier parses are cached.  Flag "stale_failure" models the cache-hit path that
+\* serves the cached tree of the submission without resetting the flag the failed foreign parse left behind.
+VARIABLES prog, hist, handlers, failed
+vars == <<prog, hist, handlers, failed>>
 
-Init == prog \in [Feats -> 0..MaxOcc] /\ hist = <<>> /\ handlers = {}
+Init == prog \in {p \in [Feats -> 0..MaxOcc] : "foreign" \in Feats => p["foreign"] = 0}
+        /\ hist = <<>> /\ handlers = {} /\ failed = FALSE
 
 RECURSIVE SumOver(_)
 SumOver(S) == IF S = {} THEN 0 ELSE LET f == CHOOSE f \in S : TRUE IN prog[f] + SumOver(S \ {f})
 Constants == SumOver(Feats \cap ConstFeats)          \* Constant nodes the program contains
 
 \* what one find_all-based query returns
-Answer(f) == IF f \in ConstFeats THEN prog[f]
+Answer(f) == IF f = "foreign" THEN 0
+             ELSE IF "stale_failure" \in Flags /\ failed THEN 0          \* `if not cait_report['success']: return []`
+             ELSE IF f \in ConstFeats THEN prog[f]
              ELSE prog[f] + (IF "Constant" \in handlers THEN Constants ELSE 0)
 Ask(f) == /\ Len(hist) < MaxLen
           /\ hist' = Append(hist, [f |-> f, ans |-> Answer(f)])
           /\ handlers' = IF "visitor_reused" \in Flags /\ f \in ConstFeats THEN handlers \cup {"Constant"}
                          ELSE IF "visitor_reused" \in Flags THEN handlers ELSE {}
+          /\ failed' = (f = "foreign" \/ ("stale_failure" \in Flags /\ failed))
           /\ UNCHANGED prog
 Next == \E f \in Feats : Ask(f)
 Spec == Init /\ [][Next]_vars
